@@ -50,6 +50,13 @@ func c13Grammar(rng interface{ Intn(int) int }, n int) []string {
 		"https://app.example.com:8443/cb", "https://APP.EXAMPLE.COM/cb", "https://app.example.com./cb", "https:app.example.com/cb",
 		"https://evil.net/app.example.com", "https://app.example.com.evil.net", "https://evil.net?app.example.com", "https://app.other.test/cb", "https://evilother.test/cb",
 	}
+	// legitimate hosts whose path carries percent-encoded delimiters: they are path characters and must stay so in
+	// whatever is emitted
+	for _, h := range []string{"app.example.com", "www.example.com", "app.other.test", "example.com"} {
+		for _, path := range []string{"/cb%3Fx=1", "/cb%3Fnext=https://evil.net/%26x=", "/cb%3f", "/cb%26x=1", "/cb%23frag", "/cb%23%3Fx=1", "/a%2Fb%3Fc"} {
+			out = append(out, "https://"+h+path)
+		}
+	}
 	for _, sub := range []string{"", "app.", "a.b.", "www.", "x-y."} {
 		for _, d := range []string{"example.com", "other.test", "partner.test", "zeta.test", "solo.test"} {
 			for _, port := range []string{"", ":443", ":8443"} {
@@ -226,6 +233,17 @@ func TestVerifC13(t *testing.T) {
 		}
 		if why == "" && rok && rb.HasQuery {
 			rep.Count("accepted_with_empty_query_mark", 1)
+		}
+		// the same rule read off what was emitted: the query string the client's host receives is the one the server
+		// appends (code=...&state=...) and nothing the requester chose (a delimiter that was percent-encoded in the
+		// redirect_uri must not come out as a literal one)
+		if why == "" && !(rok && rb.HasQuery) {
+			rep.Count("emitted_query_judged", 1)
+			if lb.HasQuery && !strings.HasPrefix(lb.Query, "code=") {
+				why = "has-query-as-emitted"
+			} else if !lb.HasQuery && !strings.Contains(raw, "#") && strings.Contains(lb.Fragment, "code=") {
+				why = "code-in-fragment-as-emitted"
+			}
 		}
 		if why == "" && len(cl.Patterns) > 0 {
 			m := false
